@@ -94,7 +94,7 @@ impl Layout {
                 continue;
             }
             let v = vals[i];
-            if v == 0.0 {
+            if v == 0.0 && i != 0 {
                 continue;
             }
             for m in &s.monos {
